@@ -22,8 +22,12 @@ confirm)
       (cd "$CONF" && CARGO_NET_OFFLINE=true timeout 900 cargo test -p oxmpl --offline --test seeded_demo 2>&1 | tail -15)
       return ${PIPESTATUS[0]}
     else
-      (cd "$CONF" && cargo build -p oxmpl-py --offline 2>&1 | tail -2 && mkdir -p /tmp/confirm_py && cp target/debug/liboxmpl_py.so /tmp/confirm_py/oxmpl_py.so && PYTHONPATH=/tmp/confirm_py timeout 600 /usr/bin/python3 "$demo" 2>&1 | tail -15)
-      return ${PIPESTATUS[0]}
+      (cd "$CONF" && cargo build -p oxmpl-py --offline >/tmp/confirm_pybuild.log 2>&1) || { tail -5 /tmp/confirm_pybuild.log; return 99; }
+      mkdir -p /tmp/confirm_py && cp "$CONF/target/debug/liboxmpl_py.so" /tmp/confirm_py/.tmp.so && mv -f /tmp/confirm_py/.tmp.so /tmp/confirm_py/oxmpl_py.so
+      PYTHONPATH=/tmp/confirm_py timeout 900 /usr/bin/python3 "$demo" >/tmp/confirm_demo.out 2>&1
+      local prc=$?
+      tail -8 /tmp/confirm_demo.out
+      return $prc
     fi
   }
   echo "== demo on the unchanged tree (must pass)"
